@@ -245,6 +245,9 @@ func encodePacket(w io.Writer, u *[]byte, b []byte, s string) (int, error) {
 		return 0, io.ErrShortWrite
 	}
 	for i := 0; i < r; i++ {
+		if len(e[i]) == 0 {
+			continue
+		}
 		if len(e[i]) > 256 {
 			e[i] = e[i][:250]
 		}
